@@ -4,7 +4,7 @@ use drv::*;
 
 fn pair_ev<S, D>(ev: &mut Ev, ls: Lay, ld: Lay, a: u128, b: u128)
 where
-    S: Ext + PartialOrd<D> + PartialEq<D>,
+    S: Ext + PartialOrd<D> + PartialEq<D> + AzTo<D>,
     D: Ext + PartialOrd<S> + PartialEq<S>,
     S::Bits: BitsIo,
     D::Bits: BitsIo,
@@ -29,6 +29,15 @@ where
     rec_ord(ev, &mut || ord7(&s, &d));
     rec_ord(ev, &mut || ord7(&d, &s));
     ev.end();
+    // the same conversion through the az cast traits (feature "az", src/cast.rs)
+    ev.begin("zf", ls);
+    ev.arg_s(&ld.name());
+    ev.arg(a);
+    ev.sep();
+    for form in 0..6u8 {
+        rec_az(ev, form, &mut || az_fixed::<S, D>(s, form));
+    }
+    ev.end();
 }
 
 /// the D-grid pattern of the value of `a` (wrapped), shifted on raw bits
@@ -50,7 +59,7 @@ fn regrid(ls: Lay, ld: Lay, a: u128) -> u128 {
 
 fn drive<S, D>(ev: &mut Ev, args: &Args, ls: Lay, ld: Lay)
 where
-    S: Ext + PartialOrd<D> + PartialEq<D>,
+    S: Ext + PartialOrd<D> + PartialEq<D> + AzTo<D>,
     D: Ext + PartialOrd<S> + PartialEq<S>,
     S::Bits: BitsIo,
     D::Bits: BitsIo,
@@ -94,7 +103,7 @@ fn main() {
             macro_rules! one {
                 ($sf:ident, $su:ident, $ss:expr, $sn:expr, $sfr:expr, $df:ident, $du:ident, $ds:expr, $dn:expr, $dfr:expr) => {
                     if Lay::new($ss, $sn, $sfr) == ws && Lay::new($ds, $dn, $dfr) == wd {
-                        pair_ev::<$sf<$su>, $df<$du>>(&mut ev, ws, wd, parse_hex(&l[3]), parse_hex(&l[4]));
+                        pair_ev::<$sf<$su>, $df<$du>>(&mut ev, ws, wd, parse_hex(&l[3]), if l.len() > 4 { parse_hex(&l[4]) } else { 0 });
                     }
                 };
             }
